@@ -104,12 +104,12 @@ pub fn one_run(prop: &str, seed: u64, run: u64, keep_log: bool) -> RunResult {
         profile.max_steps = 1300;
         profile.w = [90, 0, 2, 0, 4, 0, 0];
     }
-    if matches!(prop, "C05" | "C06" | "C07") && cfg.kind == WorldKind::Standard && !profile.long_busy && rng.chance(1, 150) {
+    if matches!(prop, "C05" | "C06" | "C07") && cfg.kind == WorldKind::Standard && !profile.long_busy && rng.chance(1, 100) {
         // many hundreds of trading blocks a second or less apart: far more reserve snapshots inside one 15-minute
         // window than the long busy histories reach
         profile.marathon = Some("seconds");
-        profile.min_steps = 650;
-        profile.max_steps = 800;
+        profile.min_steps = 1000;
+        profile.max_steps = 1250;
         profile.w = [62, 18, 2, 16, 2, 0, 0];
         profile.p_fault = (0, 100);
     }
